@@ -162,19 +162,36 @@ V_ENSURES(!__CPROVER_return_value || (V_OLD(zck->error_state) == 0 && zck->error
 V_ENSURES(!__CPROVER_return_value || __CPROVER_is_fresh(zck->comp.data, zck->comp.data_size)) /*@C03.comp_add_to_data.buffer_holds_data_size_bytes*/
 ;
 
+#ifdef VERIF_CTL
+#define RD_START_OF(ix) ((ix)->start)
+#define RD_DICT_LEN(z) ((z)->index.first->length)
+#else
+#define RD_START_OF(ix) RD_F(ix, start)
+#define RD_DICT_LEN(z) (g_n1->length)
+#endif
+/* scalar part of the decoded-buffer invariant (part of RD_WF, kept in control-only units) */
+#define RD_DC_SCALAR(z) (((z)->comp.dc_data != NULL || (z)->comp.dc_data_size == 0) && (z)->comp.dc_data_loc <= (z)->comp.dc_data_size)
 /* what the control-only units keep of the reader invariant: the codec hooks are the contract-bearing
  * stand-ins, the two running hashes are closed or typed with the context's own checksum types, and no stored
  * byte has been consumed while no chunk is current (all three are parts of RD_WF) */
-#define RD_CTL(z) (RD_HOOKS(z) && ((z)->check_chunk_hash.type == NULL || (z)->check_chunk_hash.type == &(z)->chunk_hash_type) && ((z)->check_full_hash.type == NULL || (z)->check_full_hash.type == &(z)->hash_type) && ((z)->comp.data_idx != NULL || (z)->comp.data_loc == 0))
+#define RD_HASH_TYPES(z) (((z)->check_chunk_hash.type == NULL || (z)->check_chunk_hash.type == &(z)->chunk_hash_type) && ((z)->check_full_hash.type == NULL || (z)->check_full_hash.type == &(z)->hash_type))
+#define RD_CTL(z) (RD_HOOKS(z) && RD_HASH_TYPES(z) && ((z)->comp.data_idx != NULL || (z)->comp.data_loc == 0))
 
 bool import_dict(zckCtx *zck)
 V_REQUIRES(__CPROVER_rw_ok(zck, sizeof(*zck)))
 V_REQUIRES_WF(RD_WF(zck))
 V_ASSIGNS(zck->comp, zck->check_chunk_hash.type, zck->check_chunk_hash.ctx, zck->error_state, g_hu_total, g_hu_seen, g_hu_ptr, g_hu_final, g_hu_inits, g_fin_val, g_fin_total, g_fin_seen, g_fin_ptr, g_fpos, g_rd_bytes, g_io_failed, g_last_read, g_watch_seen, g_watch_val; RD_VALID_TARGETS(zck))
 V_ENSURES(!__CPROVER_return_value || (V_OLD(zck->error_state) == 0 && zck->error_state == 0)) /*@C12.import_dict.never_succeeds_with_an_error*/
-V_ENSURES_WF(!__CPROVER_return_value || RD_N1(zck)->length == 0 || (zck->comp.dict != NULL && zck->comp.dict_size == RD_N1(zck)->length && zck->comp.started != 0)) /*@C14.import_dict.dictionary_loaded*/
+V_ENSURES(!__CPROVER_return_value || RD_DICT_LEN(zck) == 0 || (zck->comp.dict != NULL && zck->comp.dict_size == RD_DICT_LEN(zck) && zck->comp.started != 0)) /*@C14.import_dict.dictionary_loaded*/
+V_ENSURES_CTL(!__CPROVER_return_value || RD_DC_SCALAR(zck))
 V_ENSURES_WF(!__CPROVER_return_value || (RD_HOOKS(zck) && RD_STATE_WF(zck))) /*@C14.import_dict.keeps_reader_invariant*/
 V_ENSURES(!__CPROVER_return_value || RD_CTL(zck)) /*@C14.import_dict.keeps_hooks_and_hash_types*/
+/* control-only units: the buffers the context owns after a successful import are separate heap objects (or absent) -- the
+ * ownership part of RD_WF, which cannot be carried through the havoc of a replaced callee as a validity predicate */
+V_ENSURES_CTL(!__CPROVER_return_value || zck->comp.data == NULL || __CPROVER_is_fresh(zck->comp.data, 1))
+V_ENSURES_CTL(!__CPROVER_return_value || zck->comp.dc_data == NULL || __CPROVER_is_fresh(zck->comp.dc_data, 1))
+V_ENSURES_CTL(!__CPROVER_return_value || zck->comp.dict == NULL || __CPROVER_is_fresh(zck->comp.dict, 1))
+V_ENSURES_CTL(!__CPROVER_return_value || zck->check_chunk_hash.ctx == NULL || __CPROVER_is_fresh(zck->check_chunk_hash.ctx, 1))
 V_ENSURES(!__CPROVER_return_value || g_hu_hash != &zck->check_full_hash || (g_hu_final == V_OLD(g_hu_final) && (zck->has_uncompressed_source != 0 || g_hu_total - V_OLD(g_hu_total) == g_rd_bytes[G_IX(zck->fd)] - V_OLD(g_rd_bytes[G_IX(zck->fd)])))) /*@C02.import_dict.every_byte_read_is_fed_to_the_data_checksum*/
 ;
 
@@ -183,13 +200,6 @@ V_ENSURES(!__CPROVER_return_value || g_hu_hash != &zck->check_full_hash || (g_hu
  * chunk 0, end-of-data flag clear, running chunk hash empty), the descriptor at the first stored
  * byte of the chunk, the dictionary loaded if the file has one.  Checked at the call site only
  * in units that set g_canon_on. */
-#ifdef VERIF_CTL
-#define RD_START_OF(ix) ((ix)->start)
-#define RD_DICT_LEN(z) ((z)->index.first->length)
-#else
-#define RD_START_OF(ix) RD_F(ix, start)
-#define RD_DICT_LEN(z) (g_n1->length)
-#endif
 #ifdef VERIF_CANON
 #define V_REQUIRES_CANON(x) V_REQUIRES(x)
 #else
@@ -205,10 +215,18 @@ V_ENSURES(!__CPROVER_return_value || g_hu_hash != &zck->check_full_hash || (g_hu
  * which the format defines no data checksum); the running chunk hash is fed exactly the stored bytes
  * of the current chunk (part of RD_WF).  C15/C12: no success value once an error arose. */
 ssize_t comp_read(zckCtx *zck, char *dst, size_t dst_size, bool use_dict)
-V_REQUIRES(__CPROVER_rw_ok(zck, sizeof(*zck)) && RD_CTL(zck))
+V_REQUIRES(__CPROVER_rw_ok(zck, sizeof(*zck)))
+V_REQUIRES(RD_HOOKS(zck))
+V_REQUIRES(RD_HASH_TYPES(zck))
+V_REQUIRES(zck->comp.data_idx != NULL || zck->comp.data_loc == 0)
 V_REQUIRES_WF(RD_WF(zck))
 V_REQUIRES(dst != NULL && (dst_size == 0 || __CPROVER_w_ok(dst, dst_size)))   /* every caller passes a buffer (zck_read checks, import_dict allocates) */
-V_REQUIRES_CANON(RD_CANON(zck, g_canon_idx)) /*@C14.comp_read.random_access_starts_from_the_canonical_state*/   /* only in units compiled with -DVERIF_CANON (the random-access units) */
+V_REQUIRES_CANON(zck->comp.data == NULL && zck->comp.data_size == 0 && zck->comp.data_loc == 0 && zck->comp.data_eof == 0) /*@C14.comp_read.canonical_no_stored_bytes_no_position_no_eof*/
+V_REQUIRES_CANON(zck->comp.dc_data_size == zck->comp.dc_data_loc) /*@C14.comp_read.canonical_no_decoded_bytes_left*/
+V_REQUIRES_CANON(zck->comp.data_idx == g_canon_idx && zck->comp.started != 0) /*@C14.comp_read.canonical_cursor_is_the_requested_chunk*/
+V_REQUIRES_CANON(zck->check_chunk_hash.ctx == NULL || g_hu_hash != &zck->check_chunk_hash || g_hu_total == 0) /*@C14.comp_read.canonical_chunk_hash_empty*/
+V_REQUIRES_CANON(g_fpos[G_IX(zck->fd)] == (g_off_t)zck->data_offset + (g_off_t)RD_START_OF(g_canon_idx)) /*@C14.comp_read.canonical_descriptor_at_chunk_start*/
+V_REQUIRES_CANON(RD_DICT_LEN(zck) == 0 || zck->comp.dict != NULL) /*@C14.comp_read.canonical_dictionary_loaded*/   /* only in units compiled with -DVERIF_CANON (the random-access units) */
 V_ASSIGNS(zck->comp, zck->check_chunk_hash.type, zck->check_chunk_hash.ctx, zck->error_state, g_hu_total, g_hu_seen, g_hu_ptr, g_hu_final, g_hu_inits, g_fin_val, g_fin_total, g_fin_seen, g_fin_ptr, g_fpos, g_rd_bytes, g_io_failed, g_last_read, g_watch_seen, g_watch_val; dst != NULL && dst_size > 0: __CPROVER_object_upto(dst, dst_size); RD_VALID_TARGETS(zck))
 V_ENSURES(__CPROVER_return_value >= -2 && (__CPROVER_return_value < 0 || (size_t)__CPROVER_return_value <= dst_size)) /*@C03,C02.comp_read.never_more_than_asked*/
 V_ENSURES(__CPROVER_return_value < 0 || (V_OLD(zck->error_state) == 0 && zck->error_state == 0 && zck->mode == ZCK_MODE_READ)) /*@C15,C02,C12.comp_read.no_success_once_an_error_arose*/
@@ -236,7 +254,8 @@ V_REQUIRES(idx != NULL && __CPROVER_rw_ok(idx, sizeof(*idx)) && idx->zck != NULL
 V_REQUIRES_WF((idx == g_n1 || idx == g_n2 || idx == g_n3) && g_n1 != NULL && idx->zck == g_n1->zck)
 V_REQUIRES_WF(RD_WF(g_n1->zck))
 V_REQUIRES(GCD_Z(idx)->mode == ZCK_MODE_READ)   /* the property is about contexts opened for reading (a writer context is refused by comp_read) */
-V_REQUIRES(RD_CTL(GCD_Z(idx)) && RD_API(GCD_Z(idx)))
+V_REQUIRES(RD_CTL(GCD_Z(idx)) && RD_API(GCD_Z(idx)) && RD_DC_SCALAR(GCD_Z(idx)))
+V_REQUIRES(RD_DICT_LEN(GCD_Z(idx)) <= (size_t)SSIZE_MAX)   /* C14 speaks about valid files: a dictionary of 2^63 bytes or more does not exist (the getter reports sizes as ssize_t) */
 V_REQUIRES(dst == NULL || dst_size == 0 || __CPROVER_w_ok(dst, dst_size))
 V_ASSIGNS(GCD_Z(idx)->comp, GCD_Z(idx)->check_chunk_hash.type, GCD_Z(idx)->check_chunk_hash.ctx, GCD_Z(idx)->error_state, g_hu_total, g_hu_seen, g_hu_ptr, g_hu_final, g_hu_inits, g_fin_val, g_fin_total, g_fin_seen, g_fin_ptr, g_fpos, g_rd_bytes, g_io_failed, g_last_read, g_watch_seen, g_watch_val; dst != NULL && dst_size > 0: __CPROVER_object_upto(dst, dst_size); RD_VALID_TARGETS(zck))
 V_FREES(GCD_Z(idx)->comp.data, GCD_Z(idx)->comp.dc_data, GCD_Z(idx)->check_chunk_hash.ctx)
